@@ -4,6 +4,8 @@ import MpVerif.C20.Lemmas
 import MpVerif.C20.LemmasExport
 import MpVerif.C20.LemmasEscape
 import MpVerif.C20.LemmasGen
+import MpVerif.C20.LemmasUtf8
+import MpVerif.C20.LemmasExporter
 /-!
 # C20 — The exported reformulation graph is well-formed and complete
 
@@ -423,5 +425,116 @@ example : checkFile
     [cl!"{\"VAR_index\": 0, \"bounds\": [0, 5], \"type\": 1, \"is_from_nl\": 1}",
      cl!"{\"VAR_index\": 0, \"bounds\": [-1.79769e+308, 5], \"type\": 0, \"is_from_nl\": 1}"]
     ⟨1, 0, 0, 0, 0, [⟨1, false, false⟩], [], []⟩ = false := by decide
+
+/-! ## (f) the Char-level `escape` is the byte-level `escapeB` on valid Unicode strings (audit, round 5) -/
+
+/-- `escape` (used by `C20_writer_text` / `C20_json_roundtrip`) is exactly the restriction of the byte-level model of
+    `EscapeJSON` (tied to the source by `C20_gen_escape`) to UTF-8 encodings of Unicode strings -/
+theorem C20_escape_is_restriction (s : Str) : escapeB (utf8 s) = utf8 (escape s) := escapeB_utf8 s
+
+/-- … hence also of `EscapeJSON` as generated from the source -/
+theorem C20_gen_escape_on_unicode (s : Str) : genEscape (utf8 s) = utf8 (escape s) := by
+  rw [genEscape_eq]; exact escapeB_utf8 s
+
+example : utf8 cl!"aé€😀" = [97, 195, 169, 226, 130, 172, 240, 159, 152, 128] := by decide
+example : (String.utf8EncodeChar 'é').map (·.toNat) = utf8Char 'é' ∧ (String.utf8EncodeChar '😀').map (·.toNat) = utf8Char '😀'
+    ∧ (String.utf8EncodeChar '\uFFFF').map (·.toNat) = utf8Char '\uFFFF' := by decide
+
+/-! ## (e) the EXPORTER as a transition system (audit [HIGH], round 5)
+
+`ModelExporter.lean`: events = variable added / updated, constraint stored in a keeper (`ExportConstraint`), constraint
+marked reformulated or unused, link record exported (guard: endpoints inside the node sizes *at that moment*), and the push
+(`ExportVars` of all variables, `AddAllUnbridged` + `ExportConStatus` per keeper, group records).  The clauses of the
+property are proved of the records this system writes, for EVERY event sequence (events violating a guard – the C++
+`assert`s – are no-ops). -/
+
+/-- the invariant holds after every event sequence -/
+theorem C20_exporter_invariant (cfg : Cfg) (hn : cfg.types.Nodup) (evs : List Ev) : EInv cfg (xevs cfg {} evs) :=
+  einv_run cfg hn evs {} (einv_init cfg)
+
+/-- **every stored constraint appears**, numbered 0..n-1 in order: the creation records of a type are exactly these -/
+theorem C20_exporter_stored_appear (cfg : Cfg) (hn : cfg.types.Nodup) (evs : List Ev) (ty : Str) :
+    (xevs cfg {} evs).out.filter (isNew ty)
+      = (List.range ((xevs cfg {} evs).cons ty).length).map (Rec.conNew ty) :=
+  (C20_exporter_invariant cfg hn evs).news ty
+
+/-- **exactly one final status per stored constraint**: after the push the status records of a type are exactly one per
+    stored constraint, in index order, saying delivered (`final`) iff it was neither reformulated nor unused -/
+theorem C20_exporter_status_records (cfg : Cfg) (hn : cfg.types.Nodup) (evs : List Ev) (ty : Str)
+    (hfin : (xevs cfg {} evs).finished = true) (hty : ty ∈ cfg.types) :
+    (xevs cfg {} evs).out.filter (isStatusTy ty)
+      = (List.range ((xevs cfg {} evs).cons ty).length).map (fun k =>
+          Rec.conStatus ty k (cfg.name ty k) (((xevs cfg {} evs).cons ty).getD k .fresh == .unused)
+            (((xevs cfg {} evs).cons ty).getD k .fresh != .fresh) (((xevs cfg {} evs).cons ty).getD k .fresh == .fresh)) := by
+  rw [((C20_exporter_invariant cfg hn evs).fin hfin).1 ty hty, kf_records]
+  simp
+
+/-- the same in the vocabulary of `WellFormed`: `countStatus = 1`, `countNew = 1`, index below `classSize` -/
+theorem C20_exporter_exactly_one_status (cfg : Cfg) (hn : cfg.types.Nodup) (evs : List Ev) (ty : Str) (i : Nat)
+    (hfin : (xevs cfg {} evs).finished = true) (hty : ty ∈ cfg.types) (hi : i < ((xevs cfg {} evs).cons ty).length) :
+    countStatus (xevs cfg {} evs).out ty i = 1 ∧ countNew (xevs cfg {} evs).out ty i = 1
+      ∧ i < classSize (xevs cfg {} evs).out ty := by
+  have h1 := C20_exporter_status_records cfg hn evs ty hfin hty
+  have h2 := C20_exporter_stored_appear cfg hn evs ty
+  refine ⟨?_, ?_, ?_⟩
+  · unfold countStatus
+    rw [filter_refine (isStatusOf ty i) (isStatusTy ty) _ (by
+      intro r hr
+      cases r with
+      | conStatus t j nm u b f => simp only [isStatusOf, Bool.and_eq_true, decide_eq_true_eq] at hr; simp [isStatusTy, hr.1]
+      | _ => simp [isStatusOf] at hr), h1]
+    exact count_in_range_map _ _ _ i hi (by intro k; simp [isStatusOf])
+  · unfold countNew
+    rw [filter_refine (· == Rec.conNew ty i) (isNew ty) _ (by
+      intro r hr; have : r = Rec.conNew ty i := by simpa using hr
+      subst this; simp [isNew]), h2]
+    exact count_in_range_map _ _ _ i hi (by
+      intro k
+      show (Rec.conNew ty k == Rec.conNew ty i) = decide (k = i)
+      by_cases e : k = i <;> simp [e])
+  · unfold classSize; rw [h2]; simpa using hi
+
+/-- **the set marked delivered = the set handed to the ModelAPI**: the records marked `final` are, in order, exactly the
+    constraints `AddAllUnbridged` passed on, and these are exactly the stored constraints that are neither reformulated
+    nor unused -/
+theorem C20_exporter_delivered (cfg : Cfg) (hn : cfg.types.Nodup) (evs : List Ev) (hfin : (xevs cfg {} evs).finished = true) :
+    markedDelivered (xevs cfg {} evs).out = (xevs cfg {} evs).delivered.map (fun c => (c.ty, c.name)) ∧
+    (xevs cfg {} evs).delivered = (allFinish cfg (xevs cfg {} evs).cons cfg.types).2 :=
+  ((C20_exporter_invariant cfg hn evs).fin hfin).2
+
+/-- **link ranges lie inside the node sizes**: the guard is evaluated when the record is exported, node sizes only grow, so
+    every exported link endpoint lies inside the size its value node has at any later time (in particular at the end) -/
+theorem C20_exporter_links_inside (cfg : Cfg) (hn : cfg.types.Nodup) (evs : List Ev) (lty : Str) (e : Nat) (src dst : List NodeRef)
+    (hm : Rec.link lty e src dst ∈ (xevs cfg {} evs).out) (r : NodeRef) (hr : r ∈ src ∨ r ∈ dst) :
+    ∃ sz, sizeNow cfg (xevs cfg {} evs) r.node = some sz ∧ r.beg ≤ r.last ∧ r.last < sz := by
+  have h := (C20_exporter_invariant cfg hn evs).links lty e src dst hm r hr
+  unfold refIn at h
+  cases hs : sizeNow cfg (xevs cfg {} evs) r.node with
+  | none => simp [hs] at h
+  | some sz =>
+    simp only [hs, Bool.and_eq_true, decide_eq_true_eq] at h
+    exact ⟨sz, rfl, h.1, h.2⟩
+
+/-- **every flat variable appears and no record names a non-existing one** -/
+theorem C20_exporter_vars (cfg : Cfg) (hn : cfg.types.Nodup) (evs : List Ev) :
+    (∀ i, i < (xevs cfg {} evs).vars.length → ∃ b info, Rec.var i b info ∈ (xevs cfg {} evs).out) ∧
+    (∀ i b info, Rec.var i b info ∈ (xevs cfg {} evs).out → i < (xevs cfg {} evs).vars.length) :=
+  ⟨(C20_exporter_invariant cfg hn evs).vars1, (C20_exporter_invariant cfg hn evs).vars2⟩
+
+/-- a concrete history: two keepers, `_abs 0` reformulated into two `_linge`, one `_linrange` delivered; the event with a bad
+    index and the link into a node that is still too small are rejected -/
+def exCfg : Cfg := ⟨[cl!"_linrange", cl!"_linge", cl!"_abs"], fun _ => 3, fun ty i => ty ++ (toString i).toList, [(cl!"src_cons()", 1)]⟩
+def exEvs : List Ev :=
+  [.addVar true ⟨0, false, false⟩, .addVar false ⟨0, false, true⟩, .store cl!"_abs", .store cl!"_linrange",
+   .link cl!"One2ManyLink" 0 [⟨cl!"src_cons()", 0, 0⟩] [⟨cl!"_abs", 0, 0⟩],
+   .link cl!"One2ManyLink" 1 [⟨cl!"_abs", 0, 0⟩] [⟨cl!"_linge", 0, 1⟩],        -- rejected: `_linge` is still empty
+   .store cl!"_linge", .store cl!"_linge", .bridge cl!"_abs" 0, .bridge cl!"_abs" 7,  -- the second one is rejected
+   .link cl!"One2ManyLink" 1 [⟨cl!"_abs", 0, 0⟩] [⟨cl!"_linge", 0, 1⟩], .finish,
+   .link cl!"CopyLink" 0 [⟨cl!"_linge", 0, 1⟩] [⟨cl!"dest_cons(3)", 1, 2⟩]]
+example : (xevs exCfg {} exEvs).rejected = 2 ∧ (xevs exCfg {} exEvs).finished = true
+    ∧ (xevs exCfg {} exEvs).delivered.map (·.name) = [cl!"_linrange0", cl!"_linge0", cl!"_linge1"]
+    ∧ markedDelivered (xevs exCfg {} exEvs).out = [(cl!"_linrange", cl!"_linrange0"), (cl!"_linge", cl!"_linge0"), (cl!"_linge", cl!"_linge1")]
+    ∧ countStatus (xevs exCfg {} exEvs).out cl!"_abs" 0 = 1 := by decide
+example : exCfg.types.Nodup := by decide
 
 end MpVerif.C20
